@@ -9,6 +9,9 @@ using namespace opensmt;
 #ifndef MAXLEN
 #define MAXLEN 5
 #endif
+#ifndef NF
+#define NF 5     // fraction digits of the structured decimal entry (two separate zero runs need >= 4)
+#endif
 static bool isdig(char c) { return c >= '0' && c <= '9'; }
 
 // ---- GMP text interface of opensmt::normalize replaced by a recorder that parses, in ONE pass, the text handed to
@@ -21,7 +24,7 @@ extern "C" int stub_mpq_set_str(mpq_ptr, const char * flo, int base) {
     cap_n = 0; cap_d = 0; cap_den_zeros = 0;
     int i = 0, start = 0;
     for (; flo[i] != '\0'; i++) {
-        VASSERT(i < 2 * MAXLEN + 4, "text handed to GMP longer than any possible conversion");
+        VASSERT(i < 2 * MAXLEN + 2 * NF + 4, "text handed to GMP longer than any possible conversion");
         char c = flo[i];
         if (c == '/') { if (cap_has_den || i == start) cap_ok = false; cap_has_den = true; start = i + 1; continue; }
         if (!isdig(c)) { cap_ok = false; continue; }
@@ -42,7 +45,7 @@ extern "C" int stub_gmp_asprintf(char ** out, const char *, ...) { *out = nullpt
 extern "C" int stub_asprintf(char ** out, const char *, ...) { *out = nullptr; return 0; }
 // scratch buffer of stringToRational: fixed storage (a symbolic-size heap object is intractable), canary-checked
 #define C4 0x5A, 0x5A, 0x5A, 0x5A,
-static char scratch[16] = {C4 C4 C4 C4}; static unsigned long scratch_req; static int n_malloc;
+static char scratch[24] = {C4 C4 C4 C4 C4 C4}; static unsigned long scratch_req; static int n_malloc;
 extern "C" void * stub_malloc(unsigned long n) {
     VASSERT(n <= sizeof(scratch), "scratch buffer request within the harness bound");
     VASSERT(n_malloc == 0, "one scratch buffer per conversion");
@@ -57,16 +60,16 @@ static bool read_as_decimal() { return cap_base == 10 || (cap_base == 0 && !cap_
 
 static char digit() { char c = (char)nondet_u8(); VASSUME(c == '0' || c == '1' || c == '9'); return c; }
 
-// (A) every well-formed decimal  [-] d{0..2} [ . d{0..3} ]  with at least one digit denotes its exact value
+// (A) every well-formed decimal  [-] d{0..2} [ . d{0..NF} ]  with at least one digit denotes its exact value
 extern "C" void h_decimal_value() {
-    char s[8]; int p = 0;
+    char s[NF + 6]; int p = 0;
     bool neg = nondet_bool(); if (neg) s[p++] = '-';
     int ni = nondet_u8(), nf = nondet_u8(); bool dot = nondet_bool();
-    VASSUME(ni >= 0 && ni <= 2 && nf >= 0 && nf <= 3 && ni + nf >= 1 && (dot || nf == 0));
+    VASSUME(ni >= 0 && ni <= 2 && nf >= 0 && nf <= NF && ni + nf >= 1 && (dot || nf == 0));
     uint32_t rn = 0;
     for (int i = 0; i < 2; i++) if (i < ni) { char c = digit(); s[p++] = c; rn = rn * 10 + (uint32_t)(c - '0'); }
     if (dot) s[p++] = '.';
-    for (int i = 0; i < 3; i++) if (i < nf) { char c = digit(); s[p++] = c; rn = rn * 10 + (uint32_t)(c - '0'); }
+    for (int i = 0; i < NF; i++) if (i < nf) { char c = digit(); s[p++] = c; rn = rn * 10 + (uint32_t)(c - '0'); }
     s[p] = '\0';
     char * rat = nullptr; bool threw = false;
     try { stringToRational(rat, s); } catch (strConvException const &) { threw = true; }
@@ -77,8 +80,8 @@ extern "C" void h_decimal_value() {
     VASSERT(!cap_has_den || cap_den_is_pow10, "decimal literal becomes numerator / power of ten");
     uint32_t l = cap_n, r = rn;           // cap_n / 10^zeros == rn / 10^nf  <=>  cap_n * 10^nf == rn * 10^zeros
     int kc = cap_has_den ? cap_den_zeros : 0;
-    for (int i = 0; i < 4; i++) { if (i < nf) l = l * 10; if (i < kc) r = r * 10; }
-    VASSERT(kc <= 3 && l == r, "converted text denotes the literal's exact magnitude");
+    for (int i = 0; i < NF + 1; i++) { if (i < nf) l = l * 10; if (i < kc) r = r * 10; }
+    VASSERT(kc <= NF && l == r, "converted text denotes the literal's exact magnitude");
     VASSERT(rn == 0 || cap_neg == neg, "sign is preserved");
     check_scratch();
     if (nf > 0 && s[p - 1] == '0') { VWITNESS("trailing-zero"); }
